@@ -15,13 +15,13 @@ import (
 // Origin is one root a value may derive from, with the access path walked from the root to
 // the value and the affine transformation a*x+b applied on the way (when tracked).
 type Origin struct {
-	Kind string    // param | const | call | global | alloc | freevar | range | make | other
-	Val  ssa.Value // the root value
-	Name string    // param name, callee name, const value, global name
-	Path string    // ".Field[]#0" steps, outermost last
-	A, B int64     // value = A*root + B when Affine is true
+	Kind   string    // param | const | call | global | alloc | freevar | range | make | other
+	Val    ssa.Value // the root value
+	Name   string    // param name, callee name, const value, global name
+	Path   string    // ".Field[]#0" steps, outermost last
+	A, B   int64     // value = A*root + B when Affine is true
 	Affine bool
-	Keys []ssa.Value // map/index keys met on the way (outermost first)
+	Keys   []ssa.Value // map/index keys met on the way (outermost first)
 }
 
 func (o Origin) String() string {
@@ -35,8 +35,8 @@ func (o Origin) String() string {
 // FlowOpts tune the backward walk.
 type FlowOpts struct {
 	// Transparent functions: result derives from the given argument index (receiver = 0 for methods).
-	Transparent func(callee *ssa.Function, call *ssa.CallCommon) (arg int, ok bool)
-	MaxDepth    int
+	Transparent  func(callee *ssa.Function, call *ssa.CallCommon) (arg int, ok bool)
+	MaxDepth     int
 	ThroughCalls bool // inline module callees' return values (depth-limited)
 }
 
@@ -99,7 +99,16 @@ func (st *flowState) walk(v ssa.Value, path string, a, b int64, aff bool, keys [
 	}
 	switch x := v.(type) {
 	case *ssa.Parameter:
-		st.emit("param", x, x.Name(), path, a, b, aff, keys)
+		if IsNew(x.Parent()) {
+			// a helper that did not exist at review time: continue in the arguments at its call sites
+			if args := argsAtSites(x); len(args) > 0 {
+				for _, arg := range args {
+					st.walk(arg, path, a, b, aff, keys, depth+1)
+				}
+				return
+			}
+		}
+		st.emit("param", x, ParamName(x), path, a, b, aff, keys)
 	case *ssa.Const:
 		s := "nil"
 		if x.Value != nil {
@@ -242,7 +251,7 @@ func (st *flowState) walk(v ssa.Value, path string, a, b int64, aff bool, keys [
 		st.call(x, -1, x, path, a, b, aff, keys, depth)
 	case *ssa.Alloc:
 		// address of a local: the value *is* the variable; report stores into it as origins of loads
-		st.emit("alloc", x, x.Comment, path, a, b, aff, keys)
+		st.emit("alloc", x, CellName(x), path, a, b, aff, keys)
 	case *ssa.MakeSlice, *ssa.MakeMap, *ssa.MakeChan:
 		st.emit("make", x, x.Name(), path, a, b, aff, keys)
 	case *ssa.MakeClosure:
@@ -299,7 +308,7 @@ func (st *flowState) load(addr ssa.Value, path string, a, b int64, aff bool, key
 			}
 		}
 		if !found || x.Heap {
-			st.emit("alloc", x, x.Comment, path, a, b, aff, keys)
+			st.emit("alloc", x, CellName(x), path, a, b, aff, keys)
 		}
 	case *ssa.FieldAddr:
 		name := fieldName(x.X.Type(), x.Field)
@@ -364,7 +373,7 @@ func (st *flowState) call(c *ssa.Call, tupleIdx int, v ssa.Value, path string, a
 			return
 		}
 	}
-	if callee != nil && st.opts.ThroughCalls && callee.Blocks != nil && depth < 12 {
+	if callee != nil && (st.opts.ThroughCalls || IsNew(callee)) && callee.Blocks != nil && depth < 12 {
 		// inline: the returned values of the callee
 		n := 0
 		for _, blk := range callee.Blocks {
@@ -415,7 +424,7 @@ func shortQual(p *types.Package) string {
 
 // ShortFunc renders a function name without the module prefix.
 func ShortFunc(f *ssa.Function) string {
-	s := f.String()
+	s := RefFuncString(f)
 	s = strings.ReplaceAll(s, "github.com/segmentio/kafka-go/", "")
 	s = strings.ReplaceAll(s, "github.com/segmentio/kafka-go", "kafka")
 	return s
